@@ -1524,3 +1524,13 @@ package analysis
 //@   requires opts != nil && opts.Spec != nil && opts.Spec.spec != nil
 //@   modifies opts.Spec.spec.Parameters, opts.Spec.spec.Responses, heaps INDEX
 //@   ensures opts.Spec.spec == old(opts.Spec.spec) && opts.Spec.spec.Parameters == nil && opts.Spec.spec.Responses == nil
+
+// ---------------------------------------------------------------- flatten_name.go: unique names (C03)
+
+//@ ofun nameTaken(definitions spec.Definitions, n string) bool = exists k in dom(definitions) :: strings.EqualFold(k, n)
+
+//@ func uniqifyName(definitions, name)
+//@   modifies nothing
+//@   ensures !nameTaken(definitions, result)
+//@   ensures result1 <==> (name == "" || nameTaken(definitions, name))
+//@   ensures !result1 ==> result == name
